@@ -34,8 +34,21 @@ fn registry() -> &'static (Mutex<Registry>, Condvar) {
     REG.get_or_init(|| (Mutex::new(Registry::default()), Condvar::new()))
 }
 
+thread_local! {
+    static EXEMPT: std::cell::Cell<bool> = const { std::cell::Cell::new(false) };
+}
+
+/// Makes the current thread pass through all points without stopping
+/// (and without being counted).
+pub fn exempt_current_thread(exempt: bool) {
+    EXEMPT.with(|e| e.set(exempt));
+}
+
 /// A rendezvous point. Returns immediately unless the point is armed.
 pub fn point(id: &str) {
+    if EXEMPT.with(|e| e.get()) {
+        return
+    }
     let (lock, cvar) = registry();
     let mut reg = lock.lock().unwrap();
     {
@@ -75,6 +88,26 @@ pub fn disarm(id: &str) {
     let (lock, cvar) = registry();
     lock.lock().unwrap().points.entry(id.into()).or_default().armed = false;
     cvar.notify_all();
+}
+
+/// Waits until a thread waits at any of the given points and returns the
+/// point's name, or `None` on timeout.
+pub fn wait_any(ids: &[&str], timeout: std::time::Duration) -> Option<String> {
+    let (lock, cvar) = registry();
+    let deadline = std::time::Instant::now() + timeout;
+    let mut reg = lock.lock().unwrap();
+    loop {
+        for id in ids {
+            if reg.points.get(*id).map(|st| st.waiting > 0).unwrap_or(false) {
+                return Some((*id).into())
+            }
+        }
+        let now = std::time::Instant::now();
+        if now >= deadline {
+            return None
+        }
+        reg = cvar.wait_timeout(reg, deadline - now).unwrap().0;
+    }
 }
 
 /// Waits until at least one thread waits at the point. Returns false on
